@@ -78,7 +78,7 @@ TRUSTED = ["IEEE-754: the test coordinates are small dyadic rationals chosen so 
            "float implementations compute the same numbers",
            "the C compiler and CPython extension loading (the extension is rebuilt from the working tree on every run)",
            "qsort in setup_cdllist is modelled as a stable sort (glibc: merge sort for arrays of this size; ISO C leaves the order of "
-           "equal keys open - the value does not depend on it: proved for <= 3 objectives, observed otherwise)",
+           "equal keys open - the proofs only use that every list is a sorted permutation of the nodes, not how ties are ordered)",
            "numpy.argmax returns the first maximal index (modelled by argmaxFirst)"]
 ASSUMPTIONS = ["float regime: the implementations are compared with the exact Rat model evaluated at the doubles' exact values, "
                "tolerance 1e-12 relative (observed error < 1e-15); no claim about overflow/underflow ranges",
@@ -89,8 +89,9 @@ ASSUMPTIONS = ["float regime: the implementations are compared with the exact Ra
                "dimension over exact rationals); that pyhv.py executes that transcription is checked by the correspondence run "
                "(value and internal state), float rounding is outside the proof; the C extension (_hv.c, variant 4 with AVL "
                "tree) is transcribed in Core/HvC.lean (AVL library abstracted to the ordered sequence it represents) and proved "
-               "correct for 1..3 objectives; for >= 4 objectives (general case of hv_recursive, 3-D base case re-entered with a "
-               "finite bound[2]) it is validated against the transcription and hvSlice only (value correspondence)"]
+               "correct for EVERY number of objectives (C15.hvC_eq_hvCells: induction over the levels of hv_recursive, general "
+               "case with delete(_dom)/reinsert(_dom) and the 3-D base case re-entered with a finite bound[2]); that the extension "
+               "executes that transcription is the value correspondence"]
 EXPLANATION = ("The ALGORITHM of pyhv (preProcess, hvRecursive with bounds pruning / cached areas and volumes / ignore marking / "
                "remove / reinsert) is transcribed in Core/HvSweep.lean and diffed on every hypervolume case against pyhv's value AND "
                "its observable final state (hvRecursive calls per dimIndex, node order of every dimension list, ignore flags, area "
@@ -102,8 +103,15 @@ EXPLANATION = ("The ALGORITHM of pyhv (preProcess, hvRecursive with bounds pruni
                "(all dimensions), hvSlice = hvCells (discrete Fubini), invariances, 1-D/2-D formulas, indicator_least, population_hv. "
                "The C routine fpli_hv of _hv.c is transcribed in Core/HvC.lean (setup_cdllist, filter, hv_recursive VARIANT 4 incl. the "
                "3-D base case with domr / bound[2]; AVL tree = abstract ordered sequence) and diffed on every hypervolume case against the "
-               "rebuilt extension's value; proved: C15.hvC_setup_filter, hvC_le_one_point (every dimension), hvC_eq_hvCells_partial / "
-               "hvC_total_partial (1..3 objectives, all inputs), hvC_base_dim3_fresh; open: hvC_eq_hvCells_Statement for >= 4 objectives. "
+               "rebuilt extension's value; proved: C15.hvC_eq_hvCells / hvC_eq_volume — the transcription returns hvCells (the Lebesgue "
+               "measure) for EVERY number of objectives, by induction over the levels of hv_recursive with the level contract "
+               "HvC.InvC / PostC (lists = static orders restricted to the present nodes; area/vol caches below bound[i] = hypervolume "
+               "of the prefix; ignore marks witnessed by a dominating present node; cached domr below bound[2] = the third coordinate "
+               "from which the node is beaten in the 2-D staircase): hvC_dim3_reentry (3-D base case entered with any bound[2]), "
+               "hvC_general_step, hvC_levels, hvC_eq_hvCells_dim4, hvC_eq_hvCells_all (also inputs beyond the reference point, which "
+               "filter drops), hvC_total (no loop of the transcription runs out of fuel, any input, any dimension); plus hvC_setup_filter, "
+               "hvC_le_one_point, hvC_eq_hvCells_partial / hvC_total_partial (1..3 objectives), hvC_base_dim3_fresh; nothing about "
+               "the transcription is left open (the AVL library stays abstracted to the ordered sequence it represents). "
                "Both implementations are diffed against hvSlice on exactly representable inputs; an inclusion-exclusion oracle checks "
                "them independently.")
 
